@@ -39,6 +39,11 @@ META = {'C01': {'text': 'Model-based stateful property testing: random histories
          'note': "Trusts the harness's own list of written ops as oracle; format limits (offset < 2^31, strings <= 65535 bytes) are respected by the "
                  'generator.',
          'technique': 'property-based testing (rapid) + bounded exhaustive enumeration + native go fuzz, round-trip oracle'},
+ 'C06': {'text': 'Model-based stateful property testing with differential oracle primary/replica/model through both stream paths (channel clones, '
+                 'serialized log), plus controlled-schedule exploration of concurrent writers. Exploration.',
+         'design_ref': 'DESIGN.md §6 C06',
+         'note': 'Trusts the reference model; both replicas are also compared with it, so a defect common to primary and replica is still caught.',
+         'technique': 'model-based stateful property testing (rapid) + differential replica oracle + controlled-schedule exploration'},
  'C07': {'text': 'Model-based stateful property testing with snapshot->restore->continue cycles inside the history; the restored collection replaces '
                  "the primary and must keep agreeing with the reference model, including the allocator's behaviour. Exploration over bounded random "
                  'histories.',
@@ -58,6 +63,12 @@ META = {'C01': {'text': 'Model-based stateful property testing: random histories
          'note': 'Trusts the reference model. Two creating operations for one key in one transaction are known finding f17 and excluded by '
                  'construction (counted).',
          'technique': 'model-based stateful property testing (rapid) with reference-map oracle'},
+ 'C15': {'text': 'Model-based stateful property testing of the emitted stream against the blocks the reference model says changed, plus stream-wide '
+                 'ID invariants, through both a recording logger and a real commit.Channel; concurrent writers are explored under a cooperative '
+                 'scheduler that owns the interleaving at commit-protocol yield points. Exploration.',
+         'design_ref': 'DESIGN.md §6 C15',
+         'note': "Trusts the reference model for 'which blocks changed'; schedules are explored only at the yield points of the verif hooks.",
+         'technique': 'model-based stateful property testing (rapid) + controlled-schedule exploration with history invariants'},
  'C16': {'text': 'Model-based stateful property testing of Ascend over generated histories with forced duplicate values and generated filters; '
                  'completeness, uniqueness, order and values are all compared with the reference model. Exploration.',
          'design_ref': 'DESIGN.md §6 C16',
